@@ -12,12 +12,13 @@ def short(s,n=150):
 out=[]
 out.append('''Two sources of deliberately broken trees, none of them ever committed to `/repo`:
 
-**(a) Independent seeded changes** (`/verif/seeded/<property>/<k>/`, later rounds `r2-<k>`, `r3-<k>`, `r4-<k>`): for
+**(a) Independent seeded changes** (`/verif/seeded/<property>/<k>/`, later rounds `r2-<k>` ... `r5-<k>`): for
 every property a fresh sub-agent got *only* the text of the property and its own scratch worktree of
 `/repo` (nothing from `/verif`), and was asked for up to three realistic changes that break the
 property, still compile and keep the complete existing test-suite green (default and all features, doc
-tests), each needing something specific to manifest, with a demonstration test. This was done four
-times: round 1 at the start (60 changes), rounds 2 (59), 3 (59) and 4 (57) on the repaired tree 93f4f67.
+tests), each needing something specific to manifest, with a demonstration test. This was done five
+times: round 1 at the start (60 changes), rounds 2 (59), 3 (59), 4 (57) and a short round 5 (11 changes
+for eight properties, against the final checks) on the repaired tree 93f4f67.
 Round 2 asked for mechanisms other than the obvious single-site edit (stale caches, size thresholds,
 multi-step sequences, pairs of edits that are harmless alone); round 3 for changes in shared helper
 code, value- and spelling-specific behaviour, error paths and boundaries, and sequences of three or
@@ -25,14 +26,15 @@ more calls, and named six mechanisms of the earlier rounds not to be delivered a
 interplay of features (unfolded parsing x folding x conversions x operator application x substitution x
 differentiation x serde x printing), other instantiations than `FlatEx<f64>`, rarely used entry points,
 corner values reaching an operator only through an expression, and bookkeeping skipped on shortcut and
-error paths (twelve earlier mechanisms excluded). All 235 delivered
+error paths (twelve earlier mechanisms excluded; eighteen in round 5). All 246 delivered
 changes were confirmed independently (`tools/confirm_seed.sh`: demo passes on the clean tree, fails
 with the patch; both suites pass with the patch; logs in `seeded/CONFIRM*.log`). Two parser patches
 (C08/1, C08/2) were rebased onto the later F16 repair and re-confirmed. The quick check of the seeded
 property was then run against each change in a scratch copy (`tools/seed_matrix.py`; exit 1 +
 `VIOLATION` = caught); changes missed by their own property's check were additionally run against all
-twenty checks, the checks were extended (list below the table), and finally the whole matrix was run
-again with the final checks.
+twenty checks, the checks were extended (list below the table), and finally the whole matrix (rounds
+1-4) was run again with the final checks; round 5 found nothing to extend (10 of 11 caught at once, the
+eleventh is a licensed regrouping).
 ''')
 rows=[]; caught=0; total=0; missed=[]
 for d in sorted(glob.glob(f'{S}/C*/*/')):
